@@ -139,7 +139,9 @@ func c06Server(content string) (*Server, protocol.DocumentURI) {
 	cl := &zzClient{}
 	s.SetClient(cl)
 	uri := protocol.DocumentURI("file://" + zzverif.Root() + "/main.journal")
-	_ = s.DidOpen(ctx, &protocol.DidOpenTextDocumentParams{TextDocument: protocol.TextDocumentItem{URI: uri, Text: content}})
+	zzNotify(s, func() {
+		_ = s.DidOpen(ctx, &protocol.DidOpenTextDocumentParams{TextDocument: protocol.TextDocumentItem{URI: uri, Text: content}})
+	})
 	return s, uri
 }
 
